@@ -5,6 +5,9 @@ import Rare.Proofs.C15Drained
 import Rare.Proofs.C15TailSpec
 import Rare.Proofs.C15Live
 import Rare.Model.C15Skeleton
+import Rare.Proofs.C15Flush
+import Rare.Proofs.C15MultiTail
+import Rare.Proofs.C15TraceTail
 import Rare.Gen.C15
 /-!
 # C15 — follow mode delivers every appended byte exactly once, in order
@@ -610,6 +613,334 @@ theorem tail_follow_batches_segments (c0 : Option Bytes) (tail reopen : Bool) {s
       (splitLines (segments s.fs.content (s.hist ++ s.f.toList))).zipIdx 1 := by
   obtain ⟨h1, _, _, _, _, h3⟩ := tail_batches_concat source bufSize batchSize timer s.delivered script hb
   rw [← (delivered_is_segments c0 tail reopen hr).1, h1, h3 hs]
+
+
+/-! ## when do waiting lines surface?  (no timer goroutine)
+
+`syncReaderToBatcherWithTimeFlush` evaluates `time.Since(lastBatchFlush) >= autoFlush` only right after a line
+was appended to `batch`.  The liveness the code HAS is "flush on the next line"; the liveness a user of
+`rare -f` might expect – "a line is on the channel at most `AutoFlushTimeout` after it was read" – it
+does not have.  Both are theorems; /repo is left as it is. -/
+
+/-- The state of the batcher goroutine blocked in `Read` (after the follow reader delivered `data`) depends
+    on the flush timer only through its answers at the lines that HAVE arrived: whatever the clock does
+    afterwards is not a transition of the loop. -/
+theorem tail_timer_consulted_only_at_lines (source : String) (bufSize batchSize : Nat) (t1 t2 : Nat → Bool)
+    (data : Bytes) (script : List Step) (h : ∀ j, j < completeLines data → t1 j = t2 j) :
+    live source bufSize batchSize t1 data script = live source bufSize batchSize t2 data script :=
+  live_timer_congr source bufSize batchSize t1 t2 data script h
+
+/-- **tail_flush_on_next_line** – the liveness the code satisfies.  If the flush timer had expired when the
+    LAST complete line of the delivered stream arrived (`timer (n-1)`, `n` = number of complete lines), then
+    nothing is waiting in `batch`: every complete line delivered so far is on the channel, numbered, in
+    order (`C` = the newline-terminated part of the stream).  So a line that waits (fewer than `batchSize`
+    of them can, `tail_live`) is flushed by the next line that arrives `AutoFlushTimeout` or more after the
+    previous flush – and by the end of the stream (`tail_batches_concat`). -/
+theorem tail_flush_on_next_line (source : String) (bufSize batchSize : Nat) (timer : Nat → Bool) (data : Bytes)
+    (script : List Step) (hb : 1 ≤ bufSize) (hs : ∀ st ∈ script, st.err = none)
+    (hn : 0 < completeLines data) (ht : timer (completeLines data - 1) = true) :
+    let s := live source bufSize batchSize timer data script
+    s.pending = [] ∧
+    ∃ C r, data = C ++ r ∧ nl ∉ r ∧ (C = [] ∨ C.getLast? = some nl) ∧
+      s.numbered.flatMap Batcher.lineNumbers = (splitLines C).zipIdx 1 := by
+  intro s
+  have hp : s.pending = [] := live_flushed source bufSize batchSize timer data script hb hs hn ht
+  obtain ⟨_, C, r, h1, h2, h3, h4, _⟩ := tail_live source bufSize batchSize timer data script hb hs
+  refine ⟨hp, C, r, h1, h2, h3, ?_⟩
+  have h4' : s.numbered.flatMap Batcher.lineNumbers ++ s.pending.zipIdx s.b.start = (splitLines C).zipIdx 1 := h4
+  rw [hp] at h4'
+  simpa using h4'
+
+/-- Non-vacuity: `a⏎ b⏎` with the timer expired at the second line, `batchSize = 5`: both lines are on the
+    channel in one batch, nothing waits; `c` (unterminated) waits in the scanner. -/
+example : (live "f" 4 5 (fun k => k == 1) [97, 10, 98, 10, 99] []).pending = [] ∧
+    (live "f" 4 5 (fun k => k == 1) [97, 10, 98, 10, 99] []).batches = [("f", 1, [[97], [98]])] := by decide
+
+/-- **tail_no_flush_without_next_line** – the liveness a user might expect fails.  One complete line `a⏎`
+    has been delivered, `batchSize = 2`, the timer had not expired when it arrived but is expired at every
+    later moment (`timer k = true` for all `k ≥ 1`): the goroutine is running (blocked in `Read`), NOTHING
+    is on the channel, `a` waits in `batch` – and no behaviour of the clock after the line arrived changes
+    that state: the line surfaces only when another line arrives or the stream ends. -/
+theorem tail_no_flush_without_next_line :
+    ∃ (batchSize : Nat) (timer : Nat → Bool) (data : Bytes),
+      (∀ k, completeLines data ≤ k → timer k = true) ∧
+      (live "f" 4 batchSize timer data []).status = .running ∧
+      (live "f" 4 batchSize timer data []).b.out = [] ∧
+      (live "f" 4 batchSize timer data []).pending = [[97]] ∧
+      ∀ timer' : Nat → Bool, (∀ k, k < completeLines data → timer' k = timer k) →
+        live "f" 4 batchSize timer' data [] = live "f" 4 batchSize timer data [] := by
+  refine ⟨2, fun k => k != 0, [97, 10], ?_, by decide, by decide, by decide, ?_⟩
+  · intro k hk
+    have : completeLines [97, 10] = 1 := by decide
+    rw [this] at hk
+    cases k with
+    | zero => omega
+    | succ k => rfl
+  · intro timer' h
+    exact live_timer_congr "f" 4 2 timer' _ [97, 10] [] h
+
+/-! ## several followed files on ONE batch channel (`TailFilesToChan`)
+
+`Rare.C15.Multi`: one follower goroutine per file, each running the loop above on its own follow reader,
+scanner and batch heap; only the sends on `out.c` interleave.  `hist = recvd ++ q` is the order in which
+the sends completed – the order in which the consumer receives.  All statements are for EVERY reachable
+state, i.e. every schedule of the followers, the consumer and the closer, and every channel capacity
+(0 included). -/
+
+section Multi
+open Rare.C15.Multi
+
+/-- Any followers: the batches of follower `i` in the channel history are exactly the first `sent i`
+    batches of its own sequence, in its own order – whatever the other followers do. -/
+theorem multi_per_source_prefix (fs : List Follower) (B : Nat) {s : MSt} (hr : Reach fs B s)
+    (i : Nat) (f : Follower) (p : Phase) (hf : fs[i]? = some f) (hp : s.ph[i]? = some p) :
+    ofSource s.hist i = f.batches.take (sentOf f p) ∧ ofSource s.hist i <+: f.batches :=
+  ⟨(inv_reach hr).part i f p hf hp, by rw [(inv_reach hr).part i f p hf hp]; exact List.take_prefix _ _⟩
+
+/-- **Per-source partition, every schedule.**  Followers built from the single-file model: in every
+    reachable state the batches of file `i` on the channel are, in order, a NUMBERED PREFIX of the lines
+    `L` of that file's stream (`LinesOf`: all lines of the delivered bytes if its stream ends, the lines of
+    the newline-terminated part while it is followed), none is empty, and once the follower has ended
+    (`done`) they are ALL of them: exactly the numbered partition of `tail_batches_concat` for that file. -/
+theorem multi_per_source_partition (runs : List FileRun) (bufSize batchSize B : Nat) (hb : 1 ≤ bufSize)
+    {s : MSt} (hr : Reach (runs.map (FileRun.follower bufSize batchSize)) B s)
+    (i : Nat) (r : FileRun) (hi : runs[i]? = some r) (hs : ∀ st ∈ r.script, st.err = none) :
+    ∃ L, LinesOf r L ∧
+      (ofSource s.hist i).flatMap Batcher.lineNumbers <+: L.zipIdx 1 ∧
+      (∀ b ∈ ofSource s.hist i, b.lines ≠ []) ∧
+      (s.ph[i]? = some .done → ofSource s.hist i = (r.follower bufSize batchSize).batches ∧
+        (ofSource s.hist i).flatMap Batcher.lineNumbers = L.zipIdx 1 ∧
+        (ofSource s.hist i).flatMap (·.lines) = L) := by
+  obtain ⟨L, hL, h1, h2, h3⟩ := follower_lines bufSize batchSize hb r hs
+  have hinv := inv_reach hr
+  have hf := get_map_follower (bufSize := bufSize) (batchSize := batchSize) hi
+  have hlt : i < s.ph.length := by rw [hinv.len]; exact lt_of_get hf
+  obtain ⟨p, hp⟩ : ∃ p, s.ph[i]? = some p := ⟨s.ph[i], List.getElem?_eq_getElem hlt⟩
+  have hpart := hinv.part i _ p hf hp
+  have hpre : ofSource s.hist i <+: (r.follower bufSize batchSize).batches := by
+    rw [hpart]; exact List.take_prefix _ _
+  refine ⟨L, hL, (prefix_flatMap _ hpre).trans h1, fun b hb' => h3 b (hpre.subset hb'), ?_⟩
+  intro hd
+  rw [hp] at hd
+  cases hd
+  have hall : ofSource s.hist i = (r.follower bufSize batchSize).batches := by
+    rw [hpart]; simp [sentOf]
+  have hends : r.ends = true := hinv.doneEnds i _ hf hp
+  refine ⟨hall, ?_, ?_⟩
+  · rw [hall]; exact h2 hends
+  · apply flat_of_numbers; rw [hall]; exact h2 hends
+
+/-- **No batch mixes sources.**  Every batch on the channel was sent by ONE follower `i`, is one of the
+    batches of that follower's own loop, is not empty, and every line in it – with the line number the
+    extractor will attach to it – is a numbered line of file `i`'s stream. -/
+theorem multi_no_mixing (runs : List FileRun) (bufSize batchSize B : Nat) (hb : 1 ≤ bufSize)
+    (hs : ∀ r ∈ runs, ∀ st ∈ r.script, st.err = none)
+    {s : MSt} (hr : Reach (runs.map (FileRun.follower bufSize batchSize)) B s) (x : Item) (hx : x ∈ s.hist) :
+    ∃ r L, runs[x.1]? = some r ∧ LinesOf r L ∧ x.2 ∈ (r.follower bufSize batchSize).batches ∧ x.2.lines ≠ [] ∧
+      ∀ ln ∈ Batcher.lineNumbers x.2, ln ∈ L.zipIdx 1 := by
+  have hinv := inv_reach hr
+  have hlt : x.1 < runs.length := by simpa using hinv.idx x hx
+  have hi : runs[x.1]? = some runs[x.1] := List.getElem?_eq_getElem hlt
+  obtain ⟨L, hL, h1, h2, _⟩ := multi_per_source_partition runs bufSize batchSize B hb hr x.1 runs[x.1] hi
+    (hs _ (List.getElem_mem hlt))
+  have hmem : x.2 ∈ ofSource s.hist x.1 := by
+    simp only [ofSource, List.mem_map, List.mem_filter]
+    exact ⟨x, ⟨hx, by simp⟩, rfl⟩
+  have hf := get_map_follower (bufSize := bufSize) (batchSize := batchSize) hi
+  obtain ⟨p, hp⟩ : ∃ p, s.ph[x.1]? = some p :=
+    ⟨s.ph[x.1]'(by rw [hinv.len]; simpa using hlt), List.getElem?_eq_getElem _⟩
+  have hpre := (multi_per_source_prefix _ B hr x.1 _ p hf hp).2
+  refine ⟨runs[x.1], L, hi, hL, hpre.subset hmem, h2 _ hmem, ?_⟩
+  intro ln hln
+  apply h1.subset
+  exact List.mem_flatMap.mpr ⟨x.2, hmem, hln⟩
+
+/-- **The channel is closed only after every follower has ended** (plain follow): in a state with the
+    channel closed every follower's stream has ended, every follower has called `wg.Done()`, and the
+    channel history holds ALL batches of every file. -/
+theorem multi_close_only_after_all_ended (fs : List Follower) (B : Nat) {s : MSt} (hr : Reach fs B s)
+    (hc : s.closed = true) (i : Nat) (f : Follower) (hf : fs[i]? = some f) :
+    f.ends = true ∧ s.ph[i]? = some .done ∧ ofSource s.hist i = f.batches := by
+  have hinv := inv_reach hr
+  have hlt : i < s.ph.length := by rw [hinv.len]; exact lt_of_get hf
+  have hp : s.ph[i]? = some s.ph[i] := List.getElem?_eq_getElem hlt
+  have hd : s.ph[i] = .done := all_done_get (hinv.closedDone hc) hp
+  rw [hd] at hp
+  refine ⟨hinv.doneEnds i f hf hp, hp, ?_⟩
+  rw [hinv.part i f _ hf hp]; simp [sentOf]
+
+/-- …and hence a send never finds the channel closed (no `send on closed channel` panic): while any
+    follower is still running the channel is open. -/
+theorem multi_no_send_on_closed (fs : List Follower) (B : Nat) {s : MSt} (hr : Reach fs B s)
+    (i k : Nat) (hp : s.ph[i]? = some (.running k)) : s.closed = false :=
+  running_not_closed (inv_reach hr) hp
+
+/-- **Re-open follow never closes the channel**: if some follower's stream never ends (`-F`: `Read` has no
+    EOF path, `blocks_while_exists`), then in every reachable state the channel is open and the consumer
+    has not been told that the stream ended. -/
+theorem multi_reopen_never_closes (fs : List Follower) (B : Nat) (i : Nat) (f : Follower) (hf : fs[i]? = some f)
+    (hne : f.ends = false) {s : MSt} (hr : Reach fs B s) : s.closed = false ∧ s.consDone = false := by
+  have hcl : s.closed = false := by
+    cases hc : s.closed with
+    | false => rfl
+    | true =>
+      have := (multi_close_only_after_all_ended fs B hr hc i f hf).1
+      rw [hne] at this; cases this
+  refine ⟨hcl, ?_⟩
+  cases hd : s.consDone with
+  | false => rfl
+  | true => have := ((inv_reach hr).consClosed hd).1; rw [hcl] at this; cases this
+
+/-- When the consumer sees the end of the stream it has received everything: per file, exactly that
+    file's batches, in order. -/
+theorem multi_consumer_sees_all (fs : List Follower) (B : Nat) {s : MSt} (hr : Reach fs B s)
+    (hd : s.consDone = true) (i : Nat) (f : Follower) (hf : fs[i]? = some f) :
+    ofSource s.recvd i = f.batches := by
+  obtain ⟨hc, hq⟩ := (inv_reach hr).consClosed hd
+  have := (multi_close_only_after_all_ended fs B hr hc i f hf).2.2
+  simpa [MSt.hist, hq] using this
+
+/-- What the consumer can actually tell apart is `InputBatch.Source`: with pairwise different file names
+    the batches carrying the name of file `i` are the batches of follower `i`. -/
+theorem multi_by_source_name (fs : List Follower) (B : Nat) (hnd : (fs.map (·.src)).Nodup) {s : MSt}
+    (hr : Reach fs B s) (i : Nat) (f : Follower) (hf : fs[i]? = some f) :
+    ofName fs s.hist f.src = ofSource s.hist i :=
+  ofName_eq_ofSource hnd (inv_reach hr).idx hf
+
+/-- Non-vacuity (and that schedules really interleave): files `a⏎b⏎c⏎` (batch size 2, ends) and `x⏎`
+    (re-open follow: blocked in `Read` with its line flushed by the timer), channel capacity 1: a reachable
+    state in which the consumer has received file 0's first batch, then file 1's batch, then file 0's
+    remainder; file 0's follower is done, file 1's never will be, the channel is open. -/
+example : ∃ s : MSt, Reach ([(⟨"f0", fun _ => false, [97, 10, 98, 10, 99, 10], [], true⟩ : FileRun),
+      ⟨"f1", fun k => k == 0, [120, 10], [], false⟩].map (FileRun.follower 4 2)) 1 s ∧
+    s.recvd.map (fun x => (x.1, x.2.start, x.2.lines)) = [(0, 1, [[97], [98]]), (1, 1, [[120]]), (0, 3, [[99]])] ∧
+    s.ph = [.done, .running 1] ∧ s.closed = false := by
+  refine ⟨_, (applyAll_lpath [.spawn 0, .spawn 1, .send 0, .recv, .send 1, .recv, .send 0, .finish 0, .recv] _ _ rfl).reach .init,
+    by decide, by decide, by decide⟩
+
+end Multi
+
+/-! ## the event log of a real run is a run of these models (trace inclusion) -/
+
+section Trace
+open Rare.TraceOrder Rare.C15.Multi Rare.C15.Trace
+
+/-- The flush log the trace check compares the logged `flush`/`flush.eof` events with IS the batching loop
+    of `Model/Batcher` (and hence of the heap loop `Model/C15Batch`, `batch_heap_refines_batcher`) with the
+    lines forgotten: same `BatchStart`s, same sizes, for every batch size and timer behaviour. -/
+theorem trace_flush_log_is_batching_loop {α : Type} (source : String) (batchSize : Nat) (ls : List (α × Bool)) :
+    (flushLog batchSize (ls.map (·.2)) true).map fshape = (Batcher.run batchSize ls).map shape ∧
+    (flushLog batchSize (ls.map (·.2)) true).map fshape =
+      ((Batch.run source batchSize ls).out.map (Batch.run source batchSize ls).read).map shape := by
+  refine ⟨flushLog_run batchSize ls, ?_⟩
+  rw [run_refines]; exact flushLog_run batchSize ls
+
+/-- …and of `tailToChan`: the starts and sizes of the batches of a followed file are those of the flush
+    log under the oracle `timer 0, …, timer (L-1)`, `L` the number of lines of the delivered stream. -/
+theorem trace_flush_log_is_tail_loop (source : String) (bufSize batchSize : Nat) (timer : Nat → Bool) (data : Bytes)
+    (script : List Step) (hb : 1 ≤ bufSize) :
+    let t := tailToChan source bufSize batchSize timer data script
+    t.numbered.map shape =
+      (flushLog batchSize ((List.range (splitLines t.imm.delivered).length).map timer) true).map fshape :=
+  tail_shapes_eq_flushLog source bufSize batchSize timer data script hb
+
+/-- **What a flush's reason means**, for every batch size, oracle and stream: a `full` flush has at least
+    `batchSize` lines, a `timer` flush fewer, no flush is empty, and `eof` occurs only as the LAST flush of
+    a stream that ended, with fewer than `batchSize` lines.  The trace check demands of every logged
+    `flush` (`n ≥ batchSize`: full, `n < batchSize`: timer) and `flush.eof` that it is the model's next flush
+    with that reason, start and size (`Trace.evLabels`, `Trace.flushesAgree`). -/
+theorem trace_flush_reasons (batchSize : Nat) (oracle : List Bool) (ended : Bool) :
+    ∀ e ∈ flushLog batchSize oracle ended, 1 ≤ e.n ∧ (e.reason = .full → batchSize ≤ e.n) ∧
+      (e.reason = .timer → e.n < batchSize) ∧
+      (e.reason = .eof → ended = true ∧ e.n < max batchSize 1 ∧ (flushLog batchSize oracle ended).getLast? = some e) :=
+  flushLog_reasons batchSize oracle ended
+
+/-- **Trace inclusion.**  If the checker accepts the event log `tr` of a real `TailFilesToChan` /
+    `VerifOpenReaderToChan` run, then there is an admissible reordering of the log (`Rare.TraceOrder`) whose
+    replay performs transitions of `Rare.C15.Multi` only and ends in a REACHABLE state that is final for the
+    machine; so everything proved above for reachable states holds of the real run: what the consumer
+    logged as received is, per source, a prefix of that follower's batches in order (all of them when the
+    run ended), and the channel was closed only after every follower had ended. -/
+theorem trace_accepts_sound_follow (cfg : Trace.Cfg) (L : Lin Trace.PSt) (tr : Array TraceOrder.Ev)
+    (h : TraceOrder.accepts (Trace.machine cfg) L (Trace.initSt cfg) tr = true) :
+    ∃ sched ps, Admissible tr sched ∧
+      replay (Trace.machine cfg) (Trace.initSt cfg) (sched.map (evAt tr)) = some ps ∧
+      Reach cfg.fs cfg.B ps.lts ∧ Trace.final cfg ps = true ∧
+      (∀ i f, cfg.fs[i]? = some f → ofSource ps.lts.hist i <+: f.batches) ∧
+      (cfg.ends = true → ps.lts.consDone = true ∧ ∀ i f, cfg.fs[i]? = some f → ofSource ps.lts.recvd i = f.batches) ∧
+      (cfg.ends = false → ps.lts.closed = false) := by
+  obtain ⟨sched, ps, hadm, hrep, hr, hfin⟩ := accepts_reach h
+  refine ⟨sched, ps, hadm, hrep, hr, hfin, ?_, ?_, ?_⟩
+  · intro i f hf
+    have hinv := inv_reach hr
+    have hlt : i < ps.lts.ph.length := by rw [hinv.len]; exact lt_of_get hf
+    exact (multi_per_source_prefix cfg.fs cfg.B hr i f _ hf (List.getElem?_eq_getElem hlt)).2
+  · intro he
+    simp only [Trace.final, he, if_true, Bool.and_eq_true] at hfin
+    exact ⟨hfin.1, fun i f hf => multi_consumer_sees_all cfg.fs cfg.B hr hfin.1 i f hf⟩
+  · intro he
+    simp only [Trace.final, he, Bool.false_eq_true, if_false, Bool.and_eq_true, Bool.not_eq_true'] at hfin
+    exact hfin.1.1.1
+
+/-- Non-vacuity: the real-shaped two-file log `Trace.exampleLog` (the last follower's `src.close` is logged
+    after the closer's `c.close`, because `wg.Done()` runs before `stopFileReading`) is accepted; … -/
+example : TraceOrder.accepts (Trace.machine Trace.exampleCfg) (Trace.lin Trace.exampleLog)
+    (Trace.initSt Trace.exampleCfg) Trace.exampleLog.toArray = true := by decide
+
+/-- … the log order itself is not a path (`c.close` before the `wg.Done()` of follower 0): the reordering
+    is needed; … -/
+example : replay (Trace.machine Trace.exampleCfg) (Trace.initSt Trace.exampleCfg) Trace.exampleLog = none := by
+  decide
+
+/-- … the same log with the timer flush of file 1 reported as an end-of-stream flush is rejected; … -/
+example : TraceOrder.accepts (Trace.machine Trace.exampleCfg) (Trace.lin Trace.exampleLog)
+    (Trace.initSt Trace.exampleCfg)
+    (Trace.exampleLog.map fun e => if e.kind = "fl" ∧ e.src = 1 then { e with kind := "fe" } else e).toArray = false := by
+  decide
+
+/-- … and so is a log in which the consumer sees the end of the stream while follower 0 still has its
+    remainder to send (moving the closer's `c.close` event earlier would NOT do: that hook sits before the
+    `close`, which may happen any time later). -/
+example : TraceOrder.accepts (Trace.machine Trace.exampleCfg) (Trace.lin Trace.exampleLog)
+    (Trace.initSt Trace.exampleCfg)
+    ((Trace.exampleLog.take 12 ++ [(⟨2, "bd", noSrc, 0, 0, []⟩ : TraceOrder.Ev)] ++ (Trace.exampleLog.drop 12).filter (·.kind != "bd"))).toArray = false := by
+  decide
+
+end Trace
+
+/-! ## the poller's offset is written where the model writes it -/
+
+/-- poller.go as regenerated from /repo writes `s.readBytes` in exactly the three places the polling LTS
+    does (`Drain`: the tail offset; `Read`: `+= n` after every read and `= 0` on the "shorter file at the path"
+    branch), replaces `s.f` only by the `os.Open` of the re-open block, and that block is "open; size ≥ offset
+    → `Seek(readBytes)`, else `readBytes = 0`" (`openNew`).  A helper that resets the offset before the
+    `Seek` – so that a re-open of the SAME, grown file starts again at 0 – breaks this theorem. -/
+theorem poll_offset_writes_match_source :
+    Gen.C15.pollOffsetWrites = Expected.pollOffsetWrites ∧
+    Gen.C15.pollHandleWrites = Expected.pollHandleWrites ∧
+    Gen.C15.pollReopenBlock = Expected.pollReopenBlock := by
+  refine ⟨rfl, rfl, rfl⟩
+
+/-- In the model, the re-open of the same file that has grown (an append landed in the last `PollDelay` sleep,
+    after the last empty read and before the `Stat`) resumes at the offset: nothing is delivered twice.
+    `openStep` then is the identity up to the attempt counter. -/
+theorem poll_reopen_same_file_resumes {s : PSt β} (h : Handle) (sz : Nat) (hf : s.f = some h)
+    (hp : s.fs.path = some h.ino) (hpos : h.pos = s.readBytes) (hsz : s.readBytes ≤ sz) :
+    openStep s sz = { s with rd := .attempt 0 } := by
+  have hm : merges s sz = true := by simp [merges, hf, hp, hpos, hsz]
+  simp [openStep, hm]
+
+/-- Non-vacuity, as a run of the LTS: `ab` delivered, two empty polls, `cd` appended during the last sleep,
+    `Stat` sees size 4 ≠ 2, re-open, next read delivers `cd` – the stream is `abcd`, not `ababcd`. -/
+example : ∃ s : PSt Nat, PReach ⟨2, true⟩ (pinit (some [1, 2]) false) s ∧ s.delivered = [1, 2, 3, 4] ∧ s.skips = 0 := by
+  have hr : PReach ⟨2, true⟩ (pinit (some [(1 : Nat), 2]) false) _ :=
+    .step (.step (.step (.step (.step (.step (.step (.step (.refl (s0 := pinit (some [(1 : Nat), 2]) false))
+    (.readSome _ ⟨0, 0, 0⟩ 0 2 rfl (by decide) rfl (by decide) (by decide)))
+    (.readEmpty _ ⟨0, 0, 2⟩ 0 rfl (by decide) rfl rfl)) (.readEmpty _ ⟨0, 0, 2⟩ 1 rfl (by decide) rfl rfl))
+    (.append _ 0 [3, 4] rfl (by decide))) (.loopDone _ ⟨0, 0, 2⟩ rfl rfl))
+    (.statDiff _ 0 rfl rfl rfl (by decide))) (.reopen _ 4 rfl))
+    (.readSome _ ⟨0, 0, 2⟩ 0 2 rfl (by decide) rfl (by decide) (by decide))
+  exact ⟨_, hr, rfl, rfl⟩
 
 /-! ### sensitivity: the aliasing the heap model is there to exclude -/
 
